@@ -42,7 +42,7 @@ class Step:
         self.viol = []
         self.hist = self.idx = None
 
-TEXT_ALPHA = 'aaabbbcc  \t\n-:;0123xyzABsk' + 'éß' + '\u0130\u017f\u03a3\u212a'   # İ ſ Σ K(elvin): case folding that changes length / differs from lower()
+TEXT_ALPHA = 'aaabbbcc  \t\n-:;0123xyzABsk\'+' + 'éß' + '\u0130\u017f\u03a3\u212a'   # İ ſ Σ K(elvin): case folding that changes length / differs from lower()
 
 MEMBERS = ['BOLD', 'FAINT', 'NO_BOLD_FAINT', 'RED', 'BLUE', 'FG_DEFAULT', 'UNDERLINE', 'DOUBLE_UNDERLINE',
            'NO_UNDERLINE', 'BG_GREEN', 'BG_DEFAULT', 'ITALIC', 'DEFAULT_FONT', 'ALT_FONT_2', 'UL_RED', 'ORANGE',
@@ -57,7 +57,7 @@ def good_sargs(rng):
     if k == 2: return ('int', rng.choice([1, 2, 22, 31, 34, 39, 4, 21, 24, 42, 3, 10, 12, 53, 77, 256]))
     if k == 3: return ('str', rng.choice(['31', '1;31', '38;5;214', '4;58;2;1;2;3', '38;2;1;2;3;1', '22', '01;034']))
     if k == 4: return ('str', rng.choice(['[38;5;214', '[1', '[31', '[1;31', '[38;5;300', '[ 1', '[22', '[10', '[1 ', '[ 38;5;200',
-                                          '[48 ;2;1;2;3', '[ 31 ; 1', '[\t4', '[01', '[4 ;58;5; 9']))
+                                          '[48 ;2;1;2;3', '[ 31 ; 1', '[\t4', '[01', '[4 ;58;5; 9', '[[1', '[[[38;5;1', '[[']))
     if k == 5: return ('str', rng.choice(['rgb(1,2,3)', 'bg_rgb(0x102030)', 'ul_color256(9)', 'dul_rgb(300, 0, 5)',
                                           'fg_colour256(0x10)', 'rgb([1, 2, 3])', 'color256(214)']))
     if k == 6: return ('obj', rng.choice(['1', '31', '34', '1;31', '38;5;214', '38;5;300', '22', '4', '+1', '2;', '10']))
@@ -77,7 +77,7 @@ def good_sargs(rng):
     return ('member', rng.choice(MEMBERS[:10]))
 
 def bad_sargs(rng):
-    k = rng.randrange(12)
+    k = rng.randrange(13)
     if k == 0: return ('str', 'nope')
     if k == 1: return ('int', -1)
     if k == 2: return ('str', 'rgb(1,2)')
@@ -89,6 +89,8 @@ def bad_sargs(rng):
     if k == 8: return ('int', 0)
     if k == 9: return ('list', [])
     if k == 10: return ('str', rng.choice(['-1', 'rgb(ff,0,0)', 'red;nope', 'colour256()', 'x1']))
+    if k == 11: return rng.choice([('bad', b'\x01'), ('bad', range(1, 3)), ('bad', bytearray(b'\x1f')), ('bad', 2.0), ('bad', {1}),
+                                   ('list', [('int', 1), ('bad', range(38, 39))])])
     return ('bad', {})
 
 class Runner:
@@ -137,7 +139,7 @@ class Runner:
             s = (s[:i] + self.rng.choice(['\r\n', '\r', '\r\n\n', '\x0b', '\x1c']) + s[i:])[:max(n, 3)]
         if esc and self.rng.random() < 0.5:
             i = self.rng.randint(0, len(s))
-            s = s[:i] + self.rng.choice(['\x1b[2J', '\x1b[', '\x1b', '\x1b[1m', '\x1b[38;5;1m', '\x1b[0m', '\x1b[m', '\x9b', '\x9b1m', '\x9d', '\x07']) + s[i:]
+            s = s[:i] + self.rng.choice(['\x1b[2J', '\x1b[', '\x1b', '\x1b[1m', '\x1b[38;5;1m', '\x1b[0m', '\x1b[m', '\x9b', '\x9b1m', '\x9d', '\x07', '\x1b[3~', '\x1b[200~', '\x1b[15~\x1b[1m', '\x1b[1M']) + s[i:]
         return s
 
     def sgr_text(self):
@@ -163,7 +165,7 @@ class Runner:
                     else: ps.append(rng.choice(['+1', 'x', '1:2', '?25', '-1', '1_0']))
                 out += '\x1b[' + ';'.join(ps) + 'm'
             elif r < 0.85:
-                out += rng.choice(['\x1b[2J', '\x1b[1;2H', '\x1b[', '\x1b[1;3', '\x1b', '\x1b[?25l'])
+                out += rng.choice(['\x1b[2J', '\x1b[1;2H', '\x1b[', '\x1b[1;3', '\x1b', '\x1b[?25l', '\x1b[3~', '\x1b[15~', '\x9b1m', '\x1b[1M'])
         if rng.random() < 0.7:
             out += ''.join(rng.choice('abc xy') for _ in range(rng.randint(0, 3)))
         return out
@@ -578,22 +580,29 @@ class Runner:
         rng = self.rng
         x = self.pick()
         a, b = self.bound(x), self.bound(x)
-        self.do_slice(x, a, b, rng.choice(['getitem', 'clip', 'getitem']), rng.random() < 0.5)
+        self.do_slice(x, a, b, rng.choice(['getitem', 'clip', 'getitem', 'clip_inplace']), rng.random() < 0.5)
 
     def do_slice(self, x, a, b, how, keep):
         ids = P.InIds()
         inp = self._inp = P.line('slice', P.e_astr(x, ids), P.e_optint(a), P.e_optint(b))
         pre = O.Snap(x, with_render=False)
-        out, fv = self.framed([], lambda: self.call(lambda: x[a:b] if how == 'getitem' else x.clip(a, b)))
+        def run():
+            if how == 'getitem': return x[a:b]
+            if how == 'clip': return x.clip(a, b)
+            if a is None and self.rng.random() < 0.5: return x.clip(end=b, inplace=True)
+            return x.clip(a, b, inplace=True)
+        out, fv = self.framed([x] if how == 'clip_inplace' else [], lambda: self.call(run))
         self.count('slice', out)
         viol = self.c09(out, 'slice', repr((a, b))) + fv
         if out[0] == 'ok':
             y = out[1]
+            if how == 'clip_inplace' and y is not x:
+                viol.append(('C08', 'inplace_returns_self', 'clip'))
             viol += self.oracle_slice(pre, y, a, b)
             viol += self.health(y, 'slice')
-            if keep:
+            if keep and y is not x:
                 self.add_live(y)
-        self.emit('slice', inp, self.outcome_line(out, P.ok_astr), '%s[%r:%r] of %r' % (how, a, b, x._s), viol)
+        self.emit('slice', inp, self.outcome_line(out, P.ok_astr), '%s[%r:%r] of %r' % (how, a, b, pre.text), viol)
 
     def oracle_slice(self, pre, y, a, b):
         """pre: snapshot of the source taken before the slice"""
@@ -892,6 +901,11 @@ class Runner:
             viol += O.check_render(x)
             viol += O.check_valid_render(x)
             viol += O.check_flags(x)
+            if self.rng.random() < 0.3:
+                # the same claim for the immutable class: its renderings of the same value
+                a = self.call(lambda: self.S(x))
+                if a[0] == 'ok':
+                    viol += O.check_render(x, via=a[1])
         if spec:
             viol += self.oracle_spec(x, spec, out, o, rs, re_)
         self.emit('tostr', inp, self.outcome_line(out, P.ok_str), 'to_str(%r,%r,%r,%r) on %r' % (spec, o, rs, re_, x._s), viol, tags=('spec',) if spec else ())
@@ -1122,6 +1136,8 @@ class Runner:
             off = len(p) if (kind == 'removeprefix' and t.startswith(p)) else 0
             viol += self.piece(pre, y, want, off, 'C10', kind + '_text')
             viol += self.health(y, kind)
+            if inplace and y is not x:
+                viol.append(('C08', 'inplace_returns_self', kind))
         self.emit(kind, inp, self.outcome_line(out, P.ok_astr), '%s(%r) on %r' % (kind, p, t), viol)
 
     def op_split(self):
@@ -1200,7 +1216,7 @@ class Runner:
             new = ('A', self.pick())
         else:
             new = ('S', self.S(self.pick()))
-        count = rng.choice([-1, -1, 0, 1, 2])
+        count = rng.choice([-1, -1, 0, 1, 2, -2, -7, 3])
         inplace = rng.random() < 0.3
         nlen = len(new[1]) if new[0] == 's' else len(self.as_astr(new)._s)
         if (len(t) + 1) * max(1, nlen) > 600:
@@ -1234,6 +1250,8 @@ class Runner:
                 if not pre_new.same_as(O.Snap(self.as_astr(new))):
                     viol.append(('C08', 'arg_unchanged', 'replacement value modified'))
             viol += self.health(y, 'replace')
+            if inplace and y is not x:
+                viol.append(('C08', 'inplace_returns_self', 'replace'))
             if not inplace and rng.random() < 0.5:
                 self.add_live(y)
         self.emit('replace', inp, self.outcome_line(out, P.ok_astr), 'replace(%r,%s:%r,%r,inplace=%r) on %r' % (old, new[0], newtext, count, inplace, t), viol)
@@ -1320,11 +1338,14 @@ class Runner:
         ids = P.InIds()
         inp = self._inp = P.line('expandtabs', P.e_astr(x, ids), P.e_int(k))
         pre = O.Snap(x)
-        out, fv = self.framed([], lambda: self.call(lambda: x.expandtabs(k)))
+        inplace = self.rng.random() < 0.3
+        out, fv = self.framed([x] if inplace else [], lambda: self.call(lambda: x.expandtabs(k, inplace=True) if inplace else x.expandtabs(k)))
         self.count('expandtabs', out)
         viol = self.c09(out, 'expandtabs', repr(k)) + fv
         if out[0] == 'ok':
             y = out[1]
+            if inplace and y is not x:
+                viol.append(('C08', 'inplace_returns_self', 'expandtabs'))
             want = pre.text.replace('\t', ' ' * k)
             if y._s != want:
                 viol.append(('C10', 'expandtabs_text', ''))
@@ -1385,7 +1406,7 @@ class Runner:
         mc = rng.random() < 0.4
         if not regex and rng.random() < 0.3:
             pat = rng.choice([pat.upper(), pat.lower(), pat.swapcase(), 's', 'S', 'k', 'i', '\u03c3', '\u03c2'])
-        count = rng.choice([-1, -1, 0, 1, 2])
+        count = rng.choice([-1, -1, 0, 1, 2, -2, -7, 3])
         un = rng.random() < 0.4
         present = sorted(set(q for ac in O.acts(x) for q in O.texts(ac)))
         if un:
@@ -1524,7 +1545,8 @@ class Runner:
             ('removeprefix', (x._s[:1],), {}), ('removesuffix', (x._s[-1:],), {}),
             ('replace', (pat, 'Q', rng.choice([-1, 1])), {}), ('replace', (pat, other[1]), {}),
             ('split', (rng.choice([None, pat or None]),), {}), ('rsplit', (None, 1), {}), ('splitlines', (), {}),
-            ('split', (pat or None, 1), {}), ('splitlines', (True,), {}),
+            ('split', (pat or None, 1), {}), ('splitlines', (True,), {}), ('split', (None, 0), {}), ('rsplit', (None, 0), {}),
+            ('split', (pat or None, 0), {}), ('rsplit', (pat or None, rng.choice([0, 1, 2, -1])), {}),
             ('partition', (pat or 'a',), {}), ('rpartition', (pat or 'a',), {}),
             ('upper', (), {}), ('lower', (), {}), ('title', (), {}), ('capitalize', (), {}), ('swapcase', (), {}), ('casefold', (), {}),
             ('expandtabs', (4,), {}), ('expandtabs', (), {}), ('simplify', (), {}),
